@@ -100,6 +100,29 @@ def run(payload):
             if not ok:
                 fail("geometric", scale=scale, factor=factor, t_init=t_init, t=tt, prev=prev, got=a)
             prev = a
+        # ---- geometric: whatever the constructor accepts must give an increasing schedule that is never behind the query
+        scale2, factor2 = float(rng.choice([-1.0, 0.0, 0.5, 2.0])), float(rng.choice([0.25, 0.5, 1.0, 1.5]))
+        cases += 1
+        try:
+            ir = GeometricInterrupts(scale2, factor2)
+        except ValueError:
+            ir = None
+        if ir is not None:
+            import warnings
+            with warnings.catch_warnings():
+                warnings.simplefilter("ignore")
+                t0 = float(rng.choice([0.3, 1.0, 2.5]))
+                try:
+                    prev = ir.initialize(t0)
+                    bad = not (prev >= t0 * (1 - 1e-9))
+                    for t in (t0 * 1.5, t0 * 3.1, t0 * 7.3):
+                        a = ir.next(t)
+                        bad = bad or not (a >= t * (1 - 1e-9)) or not (a > prev)
+                        prev = a
+                except ArithmeticError:
+                    bad, prev = True, float("nan")
+            if bad:
+                fail("geometric.accepted_parameters", scale=scale2, factor=factor2, t_init=t0, last=float(prev))
         # ---- logarithmic (no catch-up queries: gaps must grow exactly by the factor)
         d0, factor = float(rng.choice([0.1, 1.0])), float(rng.choice([1.0, 1.5, 2.0]))
         ir = LogarithmicInterrupts(d0, factor)
